@@ -814,6 +814,9 @@ func (s *Sched) loop() {
 			if nm.Kind == KLockWait {
 				t.waitEp = s.epoch
 				s.LockBlocks++
+				if o, ok := s.env.(interface{ LockWaited(task int) }); ok {
+					o.LockWaited(c)
+				}
 			} else {
 				s.epoch++
 			}
